@@ -31,7 +31,7 @@ def bias(cfg, prop, t):
     elif prop == "C03":
         cfg["p_par"] = t.choice([0.15, 0.3, 0.45])
         cfg["p_maps"] = t.choice([0.4, 0.8, 1.0])
-        cfg["n"] = t.weighted([(1, 0.5), (2, 2), (3, 3), (4, 3)])
+        cfg["n"] = t.weighted([(1, 0.5), (2, 2), (3, 3), (4, 3), (5, 1.5), (6, 1)])
         cfg["budget"] = t.randint(6, 25)
     elif prop == "C09":
         cfg["p_subblock"] = t.choice([0.6, 1.0])
@@ -53,6 +53,9 @@ def plan_run(run_seed, prop):
         if prop != "C09" or progast.has_kind(prog, "sub"):
             break
     tp = st.get("pipeline")
+    if tp.chance(0.3):
+        # a pulse import in the header; never loaded (autoload_pulses=False), pure header data
+        prog["pulses"] = tp.choice(["qscout.v1.std", ".local_pulses", "lab.gates"])
     plan = {
         "engine": "E2",
         "prop": prop,
@@ -403,6 +406,34 @@ def execute(plan):
                 viol.add("C03", "rerun_state_identical", "mismatch", "A")
             log.append(("rerun", "ok", result_digest(b)))
 
+    # --- the job API: execute the same job twice, reading the views in between (C15)
+    if okA and circuits.get("A") is not None and plan.get("rerun") is not None and st.get("pipeline2").chance(0.3):
+        from jaqalpaq.emulator.unitary import UnitarySerializedEmulator
+        from jaqalpaq.core.algorithm import expand_macros, fill_in_let, expand_subcircuits
+
+        probe("job_executed_twice")
+
+        def job2():
+            s3 = seams.SimSampler(st.get("sampler:job"), "adversarial")
+            old3 = seams.install_sampler(s3)
+            try:
+                job = UnitarySerializedEmulator()(expand_macros(fill_in_let(expand_subcircuits(circuits["A"]))))
+                r1 = job.execute()
+                for sc in r1.subcircuits:  # read every view in between
+                    list(sc.relative_frequency_by_int), dict(sc.relative_frequency_by_str), dict(sc.simulated_probability_by_str)
+                r2 = job.execute()
+                return r1, r2
+            finally:
+                seams.install_sampler(old3)
+
+        oj = seams.outcome_of(job2, clock, 2 * budget)
+        if oj["kind"] != "ok":
+            viol.add("C15", "job_executed_twice", oj["kind"], oj.get("where", ""), str(oj.get("exc")))
+        else:
+            r1, r2 = oj["value"]
+            check_views(viol, "job-2nd-execute", r2, n, simulated=True)
+            log.append(("job2", hexdigest([[int(r.as_int) for r in sc.readouts] for sc in r2.subcircuits])))
+
     # --- written branch order must not matter (C03)
     if "A-perm" in results and okA:
         o2 = results["A-perm"]["outcome"]
@@ -622,7 +653,7 @@ EXPECTED_PROBES = {
     "C03": ["feat:parallel_block", "branch_order_permuted", "feat:alias_chain_depth>=2", "feat:macro_call", "overrides", "rerun_same_object", "feat:idle_gate", "feat:gate_without_unitary", "feat:let_sized_register", "feat:strided_slice"],
     "C08": ["zero_loop_around_bracket", "feat:zero_loop", "feat:loop_count_by_name", "let_overridden_to_0", "feat:repeated_prepare", "feat:trailing_prepare", "feat:macro_call", "hw_three_encodings", "feat:subcircuit_block"],
     "C09": ["c09_pair", "c09_structure", "feat:macro_call", "feat:loop"],
-    "C15": ["hw_three_encodings", "sampler_outcome_p<0.01", "visits"],
+    "C15": ["hw_three_encodings", "sampler_outcome_p<0.01", "visits", "job_executed_twice"],
 }
 
 
